@@ -18,6 +18,40 @@ open Wire Chain
 
 theorem nextState_da (st : State) (h : Header) (r : Bytes) : (nextState st h r).daHeight = st.daHeight := rfl
 
+theorem applyBlock_da {n n' : FNode} {sh : SHeader} {d : Data} {ws : List SW} {cont : Bool}
+    (h : applyBlock n sh d .ok = (n', ws, cont)) :
+    n'.lastState.daHeight = n.lastState.daHeight ∧
+    ∀ s, SW.updateState s ∈ ws → s.daHeight = n.lastState.daHeight := by
+  simp only [applyBlock, Prod.mk.injEq] at h
+  obtain ⟨rfl, rfl, _⟩ := h
+  refine ⟨rfl, fun s hs => ?_⟩
+  simp only [List.cons_append, List.nil_append, List.mem_cons, SW.updateState.injEq, reduceCtorEq, false_or] at hs
+  rcases hs with rfl | hs
+  · rfl
+  · have := mem_setHeightW hs
+    cases this
+
+theorem dropMismatch_da {n n' : FNode} {sh : SHeader} {ws : List SW} {cont : Bool}
+    (h : dropMismatch n sh .ok = (n', ws, cont)) :
+    n'.lastState.daHeight = n.lastState.daHeight ∧
+    ∀ s, SW.updateState s ∈ ws → s.daHeight = n.lastState.daHeight := by
+  unfold dropMismatch at h
+  simp only at h
+  split at h
+  · simp only [Prod.mk.injEq] at h
+    obtain ⟨rfl, rfl, _⟩ := h
+    exact ⟨rfl, fun s hs => by simp at hs⟩
+  · split at h
+    · simp only [Prod.mk.injEq] at h
+      obtain ⟨rfl, rfl, _⟩ := h
+      exact ⟨rfl, fun s hs => by simp at hs⟩
+    · split at h
+      · have := applyBlock_da h
+        exact this
+      · simp only [Prod.mk.injEq] at h
+        obtain ⟨rfl, rfl, _⟩ := h
+        exact ⟨rfl, fun s hs => by simp at hs⟩
+
 theorem applyNext_da {n n' : FNode} {ws : List SW} {cont : Bool}
     (h : applyNext n .ok = some (n', ws, cont)) :
     n'.lastState.daHeight = n.lastState.daHeight ∧
@@ -30,18 +64,16 @@ theorem applyNext_da {n n' : FNode} {ws : List SW} {cont : Bool}
     | some d =>
       cases hv : execValidate n.lastState sh d with
       | some e =>
-        simp only [applyNext, hH, hD, hv, Option.some.injEq, Prod.mk.injEq] at h
-        obtain ⟨rfl, rfl, _⟩ := h
-        exact ⟨rfl, fun s hs => by simp at hs⟩
+        simp only [applyNext, hH, hD, hv] at h
+        split at h
+        · simp only [Option.some.injEq] at h
+          exact dropMismatch_da h
+        · simp only [Option.some.injEq, Prod.mk.injEq] at h
+          obtain ⟨rfl, rfl, _⟩ := h
+          exact ⟨rfl, fun s hs => by simp at hs⟩
       | none =>
-        simp only [applyNext, hH, hD, hv, Option.some.injEq, Prod.mk.injEq] at h
-        obtain ⟨rfl, rfl, _⟩ := h
-        refine ⟨rfl, fun s hs => ?_⟩
-        simp only [List.cons_append, List.nil_append, List.mem_cons, SW.updateState.injEq, reduceCtorEq, false_or] at hs
-        rcases hs with rfl | hs
-        · rfl
-        · have := mem_setHeightW hs
-          cases this
+        simp only [applyNext, hH, hD, hv, Option.some.injEq] at h
+        exact applyBlock_da h
 
 theorem trySync_da (d : Nat) : ∀ (fuel : Nat) (n : FNode) (ws0 : List SW),
     n.lastState.daHeight = d → (∀ s, SW.updateState s ∈ ws0 → s.daHeight = d) →
@@ -163,6 +195,46 @@ theorem execValidate_erase (st : State) (sh : SHeader) (d : Data) :
 theorem getH_erase (n : FNode) (k : Nat) : getH (eraseN n) k = getH n k := rfl
 theorem getD_erase (n : FNode) (k : Nat) : getD (eraseN n) k = getD n k := rfl
 
+/-- applying a validated block on the erased node is the erased application -/
+theorem applyBlock_erase (n : FNode) (sh : SHeader) (d : Data) :
+    applyBlock (eraseN n) sh d .ok =
+      (eraseN (applyBlock n sh d .ok).1, (applyBlock n sh d .ok).2.1.map eraseW, (applyBlock n sh d .ok).2.2) := by
+  simp only [applyBlock]
+  simp only [Prod.mk.injEq, List.map_append, List.map_cons, List.map_nil, eraseW_setHeightW]
+  refine ⟨?_, rfl, trivial⟩
+  simp only [eraseN]
+  congr 1
+  rw [← eraseStore_applyAll, eraseW_setHeightW]
+  rfl
+
+theorem dropMismatch_erase (n : FNode) (sh : SHeader) :
+    dropMismatch (eraseN n) sh .ok =
+      (eraseN (dropMismatch n sh .ok).1, (dropMismatch n sh .ok).2.1.map eraseW, (dropMismatch n sh .ok).2.2) := by
+  unfold dropMismatch
+  simp only
+  have he : emptyDataFor { eraseN n with datCache := (eraseN n).datCache.filter (·.1 ≠ (eraseN n).store.height + 1) } sh.hdr
+      = emptyDataFor { n with datCache := n.datCache.filter (·.1 ≠ n.store.height + 1) } sh.hdr := rfl
+  rw [he]
+  cases emptyDataFor { n with datCache := n.datCache.filter (·.1 ≠ n.store.height + 1) } sh.hdr with
+  | none => rfl
+  | some d' =>
+    simp only
+    have hg : getD { eraseN n with datCache := (sh.hdr.height, d') :: (eraseN n).datCache.filter (·.1 ≠ (eraseN n).store.height + 1) }
+          ((eraseN n).store.height + 1)
+        = getD { n with datCache := (sh.hdr.height, d') :: n.datCache.filter (·.1 ≠ n.store.height + 1) } (n.store.height + 1) := rfl
+    rw [hg]
+    cases getD { n with datCache := (sh.hdr.height, d') :: n.datCache.filter (·.1 ≠ n.store.height + 1) } (n.store.height + 1) with
+    | none => rfl
+    | some d2 =>
+      simp only
+      have hv : execValidate (eraseN n).lastState sh d2 = execValidate n.lastState sh d2 := rfl
+      rw [hv]
+      cases execValidate n.lastState sh d2 with
+      | none =>
+        simp only
+        exact applyBlock_erase { n with datCache := (sh.hdr.height, d') :: n.datCache.filter (·.1 ≠ n.store.height + 1) } sh d2
+      | some e => rfl
+
 /-- one loop iteration on the erased node is the erased iteration -/
 theorem applyNext_erase (n : FNode) :
     applyNext (eraseN n) .ok = (applyNext n .ok).map fun r => (eraseN r.1, r.2.1.map eraseW, r.2.2) := by
@@ -179,17 +251,14 @@ theorem applyNext_erase (n : FNode) :
       cases hv : execValidate n.lastState sh d with
       | some e =>
         have hv' : execValidate (eraseN n).lastState sh d = some e := hv
-        simp only [applyNext, hH, hD, hv, hH', hD', hv', Option.map_some]
-        rfl
+        simp only [applyNext, hH, hD, hv, hH', hD', hv']
+        by_cases hc : validateBasic sh = none ∧ validateData sh d ≠ none
+        · rw [if_pos hc, if_pos hc, Option.map_some, dropMismatch_erase]
+        · rw [if_neg hc, if_neg hc]; rfl
       | none =>
         have hv' : execValidate (eraseN n).lastState sh d = none := hv
         simp only [applyNext, hH, hD, hv, hH', hD', hv', Option.map_some]
-        simp only [Option.some.injEq, Prod.mk.injEq, List.map_append, List.map_cons, List.map_nil, eraseW_setHeightW]
-        refine ⟨?_, rfl, trivial⟩
-        simp only [eraseN]
-        congr 1
-        rw [← eraseStore_applyAll, eraseW_setHeightW]
-        rfl
+        rw [applyBlock_erase]
 
 theorem trySync_erase : ∀ (fuel : Nat) (n : FNode) (ws : List SW),
     trySync fuel (eraseN n) (ws.map eraseW) = (eraseN (trySync fuel n ws).1, (trySync fuel n ws).2.map eraseW) := by
